@@ -65,7 +65,7 @@ def document_sets(r, n):
 def run():
     chk = Check("C13", "model_checking")
     t = tier()
-    nsets = 2 if t == "quick" else 10
+    nsets = 4 if t == "quick" else 12
     r = rng("c13")
     mats = _cli.Materials()
     jobs = []
@@ -82,6 +82,7 @@ def run():
                 argv = [fa, to, "--no-status"] + margs + largs + cargs + (["--format", fmt] if fmt else [])
                 cfg = _cli.base_cfg(fromExt=typ, toExt=typ, fromValid=[typ], toValid=[typ], sameData=equal, decided=False)
                 jobs.append({"argv": argv, "from": fa, "to": to, "cfg": cfg,
+                             "contents": (ds[typ][0].decode("latin-1"), (ds[typ][0] if equal else ds[typ][1]).decode("latin-1")),
                              "meta": {"set": si, "input": typ, "format": fmt or "default", "mode": mode, "look": look,
                                       "condensed": cond == "condensed", "equal": equal}})
     records = _cli.execute(jobs)
@@ -94,7 +95,7 @@ def run():
         if v["step"]:
             sig = {"clause": v["clause"], "input": m["input"], "format": m["format"],
                    "exc": rec["exc"].split(":")[0] if rec["exc"] else "", "where": rec.get("where", "")}
-            chk.violation(sig, {"meta": m, "argv_tail": job["argv"][2:]},
+            chk.violation(sig, {"meta": m, "argv_tail": job["argv"][2:], "first": job["contents"][0], "second": job["contents"][1]},
                           "input %s rendered as %s (%s, %s%s, %s documents): %s; rc=%s exc=%s" % (
                               m["input"], m["format"], m["mode"], m["look"], ", condensed" if m["condensed"] else "",
                               "equal" if m["equal"] else "different", v["clause"], rec["rc"], rec["exc"][:160]))
@@ -115,14 +116,14 @@ def run():
 def replay(path):
     with open(path) as f:
         doc = json.load(f)
-    m = doc["replay"]["meta"]
+    rp = doc["replay"]
+    m = rp["meta"]
     chk = Check("C13", "model_checking")
     mats = _cli.Materials()
-    ds = document_sets(rng("c13"), m["set"] + 1)[m["set"]]
     typ = m["input"]
-    fa = mats.file(ds[typ][0], _cli.EXT[typ], "a")
-    to = mats.file(ds[typ][0], _cli.EXT[typ], "c") if m["equal"] else mats.file(ds[typ][1], _cli.EXT[typ], "b")
-    argv = [fa, to] + doc["replay"]["argv_tail"]
+    fa = mats.file(rp["first"].encode("latin-1"), _cli.EXT[typ], "a")
+    to = mats.file(rp["second"].encode("latin-1"), _cli.EXT[typ], "c" if m["equal"] else "b")
+    argv = [fa, to] + rp["argv_tail"]
     cfg = _cli.base_cfg(fromExt=typ, toExt=typ, fromValid=[typ], toValid=[typ], sameData=m["equal"], decided=False)
     recs = _cli.execute([{"argv": argv, "from": fa, "to": to, "cfg": cfg}])
     errs, st = _cli.validate(recs)
@@ -130,6 +131,6 @@ def replay(path):
     chk.count("a")
     chk.count("b")
     if errs[0]["C13"]["step"]:
-        chk.violation({"clause": errs[0]["C13"]["clause"]}, doc["replay"], "%s: %s" % (errs[0]["C13"]["clause"], recs[0]["exc"]))
+        chk.violation({"clause": errs[0]["C13"]["clause"]}, rp, "%s: %s" % (errs[0]["C13"]["clause"], recs[0]["exc"]))
     chk.rule = "replay"
     return chk.finish()
